@@ -32,6 +32,11 @@ func (handlerSelf *HandlerDef) Post(fn func()) {
 	if handlerSelf.isClosed {
 		return
 	}
+	defer func() {
+		// Close() may land between the check above and the send (or while the send is
+		// parked): the function is dropped instead of panicking the caller.
+		recover()
+	}()
 
 	handlerSelf.ch <- fn
 }
